@@ -1045,6 +1045,10 @@ func vpScripts() []vpScript {
 		return c
 	}
 	od := all(vpConf{hDemand: true, hUnDemand: true, override: true})
+	noAvail := func(c vpConf) vpConf {
+		c.hUnavail, c.hOnline, c.hOffline = true, true, true
+		return c
+	}
 	q := 0
 	D := func() vpOp { q++; return vpOp{kind: vpDescribe, q: q} }
 	AP := func(p int) vpOp { q++; return vpOp{kind: vpAddPublisher, q: q, a: p} }
@@ -1076,6 +1080,13 @@ func vpScripts() []vpScript {
 		// a reader arrives while the close-after timer is armed (served describe): the timer must be disarmed
 		{"reader-while-closing", od, []vpOp{D(), AP(1), AR(1), TF(3), RR(1), TF(3), CL}},
 		{"reader-while-closing-static", all(vpConf{static: true, sod: true}), []vpOp{D(), SR(), AR(1), TF(1), RR(1), TF(1), CL}},
+		// the source leaves while the close-after timer is armed: the timer is cancelled, a new request restarts the
+		// demand and is not cut short by a stale timer
+		// (without runOnAvailable: a stale timer that fires would stop that command twice = panic of the path goroutine,
+		// which the driver process does not survive)
+		{"static-notready-while-closing", noAvail(vpConf{static: true, sod: true}), []vpOp{D(), SR(), SN, D(), TF(1), SR(), TF(1), CL}},
+		{"static-notready-while-closing-reader", noAvail(vpConf{static: true, sod: true}), []vpOp{AR(1), SR(), RR(1), SN, AR(2), TF(1), SR(), TF(1), RR(2), TF(1), CL}},
+		{"leave-while-closing-reader", noAvail(vpConf{hDemand: true, hUnDemand: true, override: true}), []vpOp{AR(1), AP(1), RR(1), RP(1), AR(2), TF(3), AP(2), TF(3), RR(2), TF(3), CL}},
 		// one of two readers leaves: no close-after timer yet
 		{"one-reader-leaves", od, []vpOp{AR(1), AP(1), AR(2), RR(1), TF(3), RR(2), TF(3), CL}},
 		{"one-reader-leaves-static", all(vpConf{static: true, sod: true}), []vpOp{AR(1), SR(), AR(2), RR(2), TF(1), RR(1), TF(1), CL}},
@@ -1129,7 +1140,25 @@ func vpRunHistory(idx int, seed uint64, scripts []vpScript) vpResult {
 	} else {
 		n := 5 + r.Intn(36)
 		for i := 0; i < n && !h.closed && h.problem == ""; i++ {
-			h.step(h.randOp(r))
+			ro := h.randOp(r)
+			h.step(ro)
+			// the source leaves (possibly while the close-after timer is armed), a new request restarts the demand
+			// and the close-after timer - which must have been cancelled - gets its chance to expire
+			// (only without runOnAvailable: a stale timer that fires stops that command a second time, which panics on
+			// the path goroutine and takes the driver process with it - no replay could be reported)
+			if (h.cf.hDemand || h.cf.sod) && !h.cf.hAvail && !h.closed && (ro.kind == vpStaticNotReady || ro.kind == vpRemovePublisher) && r.Chance(1, 2) {
+				h.nextQ++
+				if r.Bool() {
+					h.step(vpOp{kind: vpDescribe, q: h.nextQ})
+				} else {
+					h.step(vpOp{kind: vpAddReader, q: h.nextQ, a: 1 + r.Intn(4)})
+				}
+				ct := 3
+				if h.cf.sod {
+					ct = 1
+				}
+				h.step(vpOp{kind: vpTimerFire, a: ct})
+			}
 			// the close-after timer gets its chance to expire right after held readers were served by the
 			// ready event (1 in 2) and, now and then, whenever readers are attached on an on-demand path
 			if (h.cf.hDemand || h.cf.sod) && !h.closed &&
